@@ -274,6 +274,30 @@ class Sym:
                     key = "<fnptr>"
                     val = ("call", key, (self.operand(env, t["fp"]),) + args)
                 events = events + [("call", key, args, val, b, span_line(t["s"]), cal)]
+                # a callee that received a mutable reference may have changed what it points to:
+                # earlier assumptions about values read through it no longer hold
+                stale_roots = set()
+                for a_op, a_val in zip(t["args"], args):
+                    pl = op_place(a_op)
+                    if pl is None or pl[1]:
+                        continue
+                    aty = fn.facts.types[fn.locals[pl[0]][0]]
+                    if aty.get("k") == "ref" and aty.get("mut"):
+                        root = a_val
+                        while isinstance(root, tuple) and root and root[0] in ("field", "variant", "index", "cast"):
+                            root = root[1]
+                        if isinstance(root, tuple) and root and root[0] in ("param", "local"):
+                            stale_roots.add(root)
+                if stale_roots:
+                    def _stale(x):
+                        return any(y in stale_roots for y in _walk_expr(x))
+                    if any(_stale(k_) for k_ in known):
+                        known = {k_: v_ for k_, v_ in known.items() if not _stale(k_)}
+                    drop = [k_ for k_ in env if isinstance(k_, tuple) and len(k_) == 2 and isinstance(k_[1], tuple) and (("param", k_[0]) in stale_roots or ("local", k_[0]) in stale_roots)]
+                    if drop:
+                        env = dict(env)
+                        for k_ in drop:
+                            del env[k_]
                 # a callee that received `&mut x` (possibly inside a closure) may have changed x
                 hv = set()
                 for a in t["args"]:
@@ -388,7 +412,7 @@ class Sym:
                         continue
                     k2 = dict(known)
                     k2[atom] = lab
-                    self._walk(tt, env, k2, conds + [(atom, lab)], events, blocks, visited)
+                    self._walk(tt, env, k2, conds + [(atom, lab)], events + [("cond", atom, lab, b)], blocks, visited)
                 return
             if k == "unreachable":
                 self._finish(conds, events, ("unreachable", b), blocks)
@@ -416,6 +440,18 @@ class Sym:
 
 
 _NEG_BIN = {"Ne": "Eq", "Le": "Gt", "Ge": "Lt"}
+
+
+def _walk_expr(e):
+    st = [e]
+    while st:
+        x = st.pop()
+        if not isinstance(x, tuple):
+            continue
+        yield x
+        for y in x:
+            if isinstance(y, tuple):
+                st.append(y)
 
 
 def _pkey(projs):
